@@ -160,7 +160,7 @@ def forward_dir(cell, seed):
     if ok:
         ob = collect(y, o, r)
         cots = [util.make_input('randn', list(t.shape), seed + 2 + i) for i, (t, b) in enumerate(ob)]
-        ok, g = util.call_lib(torch.autograd.grad, [t for t, b in ob], x, cots)
+        ok, g = util.call_lib(torch.autograd.grad, [t for t, b in ob], x, cots, retain_graph=True)
         if not ok:
             out.append(res(VIOLATED, case, 'M-JAC', 'backward raised %r' % (g,)))
         else:
@@ -169,6 +169,17 @@ def forward_dir(cell, seed):
             want = (gc @ A).reshape(2, 3, *sp)
             okc, d, ratio = util.compare('x.grad vs A^T g', g[0], want, tol * float(np.abs(gc).max()) * 4)
             out.append(res(HELD, case, 'M-JAC', ratio=ratio) if okc else res(VIOLATED, case, 'M-JAC', d, ratio=ratio))
+            # a second cotangent, of magnitude 1e-10, pulled back through the same recorded graph
+            case2 = {'cell': cell, 'check': 'second pull-back, tiny cotangent'}
+            cots2 = [1e-10 * util.make_input('randn', list(t.shape), seed + 60 + i) for i, (t, b) in enumerate(ob)]
+            ok, g2 = util.call_lib(torch.autograd.grad, [t for t, b in ob], x, cots2)
+            if not ok:
+                out.append(res(VIOLATED, case2, 'M-JAC', 'second backward through the same graph raised %r' % (g2,)))
+            else:
+                gc2 = np.concatenate([util.np64(to_default(c_, o, r)).reshape(6, -1) for c_ in cots2], axis=1)
+                okc, d, ratio = util.compare('x.grad vs A^T g (|g| ~ 1e-10)', g2[0], (gc2 @ A).reshape(2, 3, *sp),
+                                             tol * float(np.abs(gc2).max()) * 4)
+                out.append(res(HELD, case2, 'M-JAC', ratio=ratio) if okc else res(VIOLATED, case2, 'M-JAC', d, ratio=ratio))
     return out
 
 
@@ -243,8 +254,13 @@ def inverse_dir(cell, seed):
             out.append(res(VIOLATED, case, 'M-JAC.subset', 'inverse raised %r' % (yb,)))
             continue
         cot = util.make_input('randn', list(yb.shape), seed + 40)
+        if sum(pat) % 2 == 0:
+            cot = cot * 1e-10          # every cotangent, tiny ones included
+            case['cotangent_scale'] = 1e-10
         want_args = [a for a, p in zip(args, pat) if p]
-        ok, g = util.call_lib(torch.autograd.grad, [yb], want_args, [cot], allow_unused=True)
+        ok, g = util.call_lib(torch.autograd.grad, [yb], want_args, [cot], allow_unused=True, retain_graph=True)
+        if ok:
+            ok, g = util.call_lib(torch.autograd.grad, [yb], want_args, [cot], allow_unused=True)   # second pull-back
         if not ok:
             out.append(res(VIOLATED, case, 'M-JAC.subset', 'backward raised %r' % (g,)))
             continue
